@@ -118,11 +118,20 @@ def check_C01(work, tier, seed):
     b = build(work)
     sc = gen_c01(seed, tier)
     lines = conform(work, b, "C01", seed, sc.text(), out)
+    # the other word-size code path (32-bit S-boxes, LFSRs, permutation) and the
+    # byte-order-neutral one, on the same inputs
+    for name, defs in (("w32", ["SKINNY_VERIF_64BIT=0"]),
+                       ("w32-neutral", ["SKINNY_VERIF_64BIT=0", "SKINNY_VERIF_LITTLE_ENDIAN=0",
+                                        "SKINNY_VERIF_VEC128_MATH=0", "SKINNY_VERIF_VEC256_MATH=0"])):
+        b2 = build(work, name=name, defs=defs, built128=0 if "neutral" in name else 1,
+                   built256=0 if "neutral" in name else 1)
+        axis_compare(work, "C01", seed, out, lines, name, b2, sc.text(), "-" + name)
     note_distinct(out, lines, ("o",))
     out.samples = sample_events(lines)
     return out, dict(
         level="exploration",
-        rule="SKINNY-64/128 x TK1/2/3: published vectors; reduced-round (rr=1..) sweeps in which every cell position "
+        rule="(default build, 32-bit-word build and byte-order-neutral 32-bit build) "
+             "SKINNY-64/128 x TK1/2/3: published vectors; reduced-round (rr=1..) sweeps in which every cell position "
              "takes every cell value, enc and dec; walking round-key bytes at 3 rounds; full-round walking key bytes, "
              "patterns and seeded random key/block pairs, enc and dec of arbitrary blocks. Oracle: SkinnySpec.tla "
              "evaluated by TLC (schedule image, output). distinct = distinct (event,kind,rr,key,input) tuples.",
@@ -329,10 +338,33 @@ def gen_ctr(seed, tier, cap_for, c06=False):
                         sc.ctr_set_counter(kind, 0, sc.rb(bs), bs + 1)
                         sc.ctr_encrypt(kind, 0, None, n=4)
                         sc.ctr_set_tweak(kind, 0, sc.rb(bs), bs + 3)
+                        if keying == "tweaked":
+                            sc.ctr_set_tweak(kind, 0, sc.rb_nz(bs if kind != "mantis" else 8))
                     elif r < 0.8:
                         sc.ctr_set_counter(kind, 0, sc.rb(sc.rng.randrange(0, bs + 1)))
                     sc.ctr_encrypt(kind, 0, sc.rb(sc.rng.randrange(0, 2 * bs)))
                 sc.ctr_cleanup(kind, 0)
+            # 4b. deterministic: key + non-zero tweak, stream stopped mid-block, every invalid call,
+            #     then a tweak change and more data (hidden tweak / keystream state must survive rejections)
+            sc.reset("ctr-mid-invalid-%s" % kind)
+            sc.ctr_init(kind, 0, cap=cap)
+            if kind == "mantis":
+                sc.ctr_set_key(kind, 0, sc.rb(16), rounds=7)
+                sc.ctr_set_tweak(kind, 0, sc.rb_nz(8))
+            else:
+                sc.ctr_set_tweaked_key(kind, 0, sc.rb(2 * bs))
+                sc.ctr_set_tweak(kind, 0, sc.rb_nz(bs))
+            sc.ctr_set_counter(kind, 0, sc.rb(bs))
+            sc.ctr_encrypt(kind, 0, sc.rb(bs + 5))
+            def probe(kind=kind, bs=bs):
+                sc.ctr_encrypt(kind, 0, sc.rb(2))
+            ctr_invalid_all(sc, kind, 0, probe)
+            sc.ctr_set_tweak(kind, 0, sc.rb_nz(8 if kind == "mantis" else bs - 2))
+            sc.ctr_encrypt(kind, 0, sc.rb(9 * bs + 1))
+            ctr_invalid_all(sc, kind, 0)
+            sc.ctr_set_tweak(kind, 0, sc.rb_nz(8 if kind == "mantis" else bs))
+            sc.ctr_encrypt(kind, 0, sc.rb(bs))
+            sc.ctr_cleanup(kind, 0)
             # 5. live but never keyed object (implementation-defined, must still be back-end independent)
             sc.reset("ctr-unkeyed-%s" % kind)
             sc.ctr_init(kind, 0, cap=cap)
@@ -753,8 +785,13 @@ def gen_c10(seed, tier, cap_for=lambda k: 2):
             if bs <= ln <= 2 * bs or ln % 7 == 0:
                 sc.ctr_set_counter(kind, 0, sc.rb(bs))
                 sc.ctr_encrypt(kind, 0, sc.rb(bs + 1))
-        for h in HUGE:
+        sc.ctr_set_tweaked_key(kind, 0, sc.rb_nz(2 * bs))
+        sc.ctr_set_tweak(kind, 0, sc.rb_nz(bs))
+        for h in HUGE + (0, bs - 1, 2 * bs + 1):
             sc.ctr_set_tweaked_key(kind, 0, sc.rb_nz(2 * bs), h)
+            sc.ctr_set_key(kind, 0, sc.rb_nz(3 * bs), h if h > 3 * bs else (bs - 1 if h else 0))
+            sc.ctr_set_tweak(kind, 0, sc.rb_nz(sc.rng.randrange(1, bs + 1)))
+            sc.ctr_encrypt(kind, 0, sc.rb(bs + 1))
         sc.ctr_encrypt(kind, 0, sc.rb(bs))
         sc.ctr_cleanup(kind, 0)
         sc.reset("c10-par-%s" % kind)
@@ -858,27 +895,29 @@ def par_use_all(sc, kind, o):
         sc.par_crypt(kind, o, sc.rb(2 * bs), enc=False)
 
 
-def ctr_invalid_all(sc, kind, o):
-    """every class of invalid argument for every CTR function"""
+def ctr_invalid_all(sc, kind, o, probe=None):
+    """every class of invalid argument for every CTR function; `probe` (if given) is
+    called after each one: valid calls whose results show any hidden state change"""
     bs = BS[kind]
-    sc.ctr_set_key(kind, o, None, bs, rounds=6)                        # null key
-    sc.ctr_set_key(kind, o, sc.rb(bs - 1), rounds=6)                   # too short
-    sc.ctr_set_key(kind, o, sc.rb(3 * bs + 1), rounds=6)               # too long
+    P = probe or (lambda: None)
+    sc.ctr_set_key(kind, o, None, bs, rounds=6); P()                   # null key
+    sc.ctr_set_key(kind, o, sc.rb(bs - 1), rounds=6); P()              # too short
+    sc.ctr_set_key(kind, o, sc.rb(3 * bs + 1), rounds=6); P()          # too long
     if kind == "mantis":
-        sc.ctr_set_key(kind, o, sc.rb(16), rounds=4)
-        sc.ctr_set_key(kind, o, sc.rb(16), rounds=9)
-        sc.ctr_set_tweak(kind, o, sc.rb(8), 7)
-        sc.ctr_set_tweak(kind, o, sc.rb(9), 9)
+        sc.ctr_set_key(kind, o, sc.rb(16), rounds=4); P()
+        sc.ctr_set_key(kind, o, sc.rb(16), rounds=9); P()
+        sc.ctr_set_tweak(kind, o, sc.rb(8), 7); P()
+        sc.ctr_set_tweak(kind, o, sc.rb(9), 9); P()
     else:
-        sc.ctr_set_tweaked_key(kind, o, None, bs)
-        sc.ctr_set_tweaked_key(kind, o, sc.rb(bs - 1))
-        sc.ctr_set_tweaked_key(kind, o, sc.rb(2 * bs + 1))
-        sc.ctr_set_tweak(kind, o, sc.rb(bs), 0)
-        sc.ctr_set_tweak(kind, o, sc.rb(bs + 1), bs + 1)
-    sc.ctr_set_counter(kind, o, sc.rb(bs + 1), bs + 1)
-    sc.ctr_set_counter(kind, o, None, bs + 1)
-    sc.ctr_encrypt(kind, o, None, n=5)                                 # null input
-    sc.ctr_encrypt(kind, o, sc.rb(5), outnull=1)                       # null output
+        sc.ctr_set_tweaked_key(kind, o, None, bs); P()
+        sc.ctr_set_tweaked_key(kind, o, sc.rb(bs - 1)); P()
+        sc.ctr_set_tweaked_key(kind, o, sc.rb(2 * bs + 1)); P()
+        sc.ctr_set_tweak(kind, o, sc.rb(bs), 0); P()
+        sc.ctr_set_tweak(kind, o, sc.rb(bs + 1), bs + 1); P()
+    sc.ctr_set_counter(kind, o, sc.rb(bs + 1), bs + 1); P()
+    sc.ctr_set_counter(kind, o, None, bs + 1); P()
+    sc.ctr_encrypt(kind, o, None, n=5); P()                            # null input
+    sc.ctr_encrypt(kind, o, sc.rb(5), outnull=1); P()                  # null output
 
 
 def par_invalid_all(sc, kind, o):
@@ -958,8 +997,10 @@ def gen_c14(seed, tier, cap_for=lambda k: 2):
                 if phase == "set":
                     sc.ks_crypt(True, kind, 0, sc.rb(bs))
                     sc.ks_crypt(True, kind, 0, sc.rb(bs), t=1)
+                    sc.ks_set_tweak(kind, 0, sc.rb_nz(bs - 1))
+                    sc.ks_crypt(True, kind, 0, sc.rb(bs), t=1)
         # CTR / parallel objects in every phase
-        for phase in ("zeroed", "live", "keyed", "mid", "failed", "dead"):
+        for phase in ("zeroed", "live", "keyed", "mid", "tweaked", "tmid", "failed", "dead"):
             sc.reset("c14-ctr-%s-%s" % (kind, phase))
             if phase == "failed":
                 sc.ctr_init(kind, 0, cap=cap, fail=1)
@@ -968,12 +1009,30 @@ def gen_c14(seed, tier, cap_for=lambda k: 2):
             if phase in ("keyed", "mid", "dead"):
                 sc.ctr_set_key(kind, 0, valid_key(sc, kind), rounds=7)
                 sc.ctr_set_counter(kind, 0, sc.rb(bs))
-            if phase == "mid":
+            if phase in ("tweaked", "tmid"):
+                # key AND a non-zero tweak in place: a rejected call must not disturb either
+                if kind == "mantis":
+                    sc.ctr_set_key(kind, 0, sc.rb(16), rounds=6)
+                    sc.ctr_set_tweak(kind, 0, sc.rb_nz(8))
+                else:
+                    sc.ctr_set_tweaked_key(kind, 0, valid_key(sc, kind, True))
+                    sc.ctr_set_tweak(kind, 0, sc.rb_nz(bs))
+                sc.ctr_set_counter(kind, 0, sc.rb(bs))
+            if phase in ("mid", "tmid"):
                 sc.ctr_encrypt(kind, 0, sc.rb(bs + 5))
             if phase == "dead":
                 sc.ctr_encrypt(kind, 0, sc.rb(bs + 5))
                 sc.ctr_cleanup(kind, 0)
-            ctr_invalid_all(sc, kind, 0)
+            if phase in ("tweaked", "tmid"):
+                def probe(kind=kind, bs=bs):
+                    # a tweak CHANGE after the rejected call exposes a stale or wiped remembered tweak
+                    sc.ctr_set_tweak(kind, 0, sc.rb_nz(8 if kind == "mantis" else sc.rng.randrange(1, bs + 1)))
+                    sc.ctr_encrypt(kind, 0, sc.rb(bs + 1))
+                ctr_invalid_all(sc, kind, 0, probe)
+            elif phase in ("keyed", "mid"):
+                ctr_invalid_all(sc, kind, 0, lambda kind=kind: sc.ctr_encrypt(kind, 0, sc.rb(3)))
+            else:
+                ctr_invalid_all(sc, kind, 0)
             # valid calls afterwards: in live phases the stream continues undisturbed,
             # in inert phases every call returns 0
             sc.ctr_encrypt(kind, 0, sc.rb(2 * bs + 1))
@@ -1508,17 +1567,34 @@ def gen_c09(seed, tier, cap_for=lambda k: 2):
         # every pointer argument at every placement
         sc.reset("c09-pl-%s" % kind)
         for pl in pls:
-            key = sc.rb(sc.rng.choice((bs, bs + 1, 2 * bs - 1, 3 * bs)))
+            key = sc.rb(sc.rng.choice((bs, bs + 1, bs + 2, bs + 3, 2 * bs - 1, 2 * bs + 1, 2 * bs + 2, 3 * bs - 2, 3 * bs)))
             sc.op("ks_set_key", k=kind, o=0, t=0, key=hx(key), len=len(key), pk=pl)
             blk = sc.rb(bs)
             kw = {"in": hx(blk)}
             sc.op("ks_enc", k=kind, o=0, t=0, pi=pl, po=sc.rng.choice(pls), **kw)
             sc.op("ks_dec", k=kind, o=0, t=0, pi=sc.rng.choice(pls), po=pl, **kw)
-            tkey = sc.rb(sc.rng.choice((bs, bs + 3, 2 * bs)))
+            tkey = sc.rb(sc.rng.choice((bs, bs + 1, bs + 2, bs + 3, 2 * bs - 2, 2 * bs)))
             sc.op("ks_set_tweaked_key", k=kind, o=1, key=hx(tkey), len=len(tkey), pk=pl)
             tl = sc.rng.choice((1, 2, bs - 1, bs))
             sc.op("ks_set_tweak", k=kind, o=1, tweak=hx(sc.rb(tl)), len=tl, pt=pl)
             sc.op("ks_enc", k=kind, o=1, t=1, pi=pl, po=pl, **kw)
+    # every accepted key / tweak / counter length with the buffer flush against the end guard
+    # (an over-read of even one byte traps) and, separately, followed by non-zero bytes
+    for kind in ("s128", "s64"):
+        bs = BS[kind]
+        sc.reset("c09-keyend-%s" % kind)
+        sc.ctr_init(kind, 0, cap=cap_for(kind))
+        for ln in range(bs, 3 * bs + 1):
+            for pl in ("e", "m3"):
+                sc.op("ks_set_key", k=kind, o=0, t=0, key=hx(sc.rb_nz(ln)), len=ln, pk=pl)
+                if ln <= 2 * bs:
+                    sc.op("ks_set_tweaked_key", k=kind, o=1, key=hx(sc.rb_nz(ln)), len=ln, pk=pl)
+            if ln % 3 == 0:
+                sc.op("ctr_set_key", k=kind, o=0, key=hx(sc.rb_nz(ln)), len=ln, pk="e")
+        for ln in range(1, bs + 1):
+            sc.op("ks_set_tweak", k=kind, o=1, tweak=hx(sc.rb_nz(ln)), len=ln, pt="e")
+            sc.op("ctr_set_counter", k=kind, o=0, ctr=hx(sc.rb_nz(ln)), len=ln, pt="e")
+        sc.ctr_cleanup(kind, 0)
     sc.reset("c09-mantis")
     sc.mk_set_key(0, sc.rb(16), 6, 1)
     for off in range(-7, 8):
